@@ -165,7 +165,27 @@ def compare_values(a, b):
         if rs[0] == 'equal' and 'different' in rs[1:]:
             return 'different'
         return 'unknown'
+    if isinstance(a, IteV) != isinstance(b, IteV) and not isinstance(a, Rat) and not isinstance(b, Rat):
+        # one side branches on a condition the other does not: equal only if the plain value equals both arms
+        it, x = (a, b) if isinstance(a, IteV) else (b, a)
+        r1, r2 = compare_values(x, it.a), compare_values(x, it.b)
+        if r1 == 'equal' and r2 == 'equal':
+            return 'equal'
+        ca = _single_atom(it.cond) if isinstance(it.cond, Rat) else None
+        none_test = ca is not None and ca.kind == 'fn' and ca.name in ('eq', 'ne') and 'None' in ca.args and \
+            any(isinstance(z, Rat) and _single_atom(z) is not None and _single_atom(z).kind == 'sym' for z in ca.args)
+        if none_test and 'different' in (r1, r2):
+            return 'different'      # an optional input may be absent or present: both arms are reachable
+        return 'unknown'
     if type(a) is not type(b):
+        if isinstance(a, NoneV) != isinstance(b, NoneV) and (isinstance(a, Rat) or isinstance(b, Rat)):
+            r_ = a if isinstance(a, Rat) else b
+            sa = _single_atom(r_)
+            if sa is not None and sa.kind in ('sym', 'unk'):
+                return 'unknown'        # an optional input may itself be None
+            if sa is not None and sa.kind == 'fn' and sa.name in ('ite', 'item', 'getitem') or (sa is not None and sa.kind == 'fn' and sa.name.startswith(('call:', 'ext:', 'method:'))):
+                return 'unknown'
+            return 'different'          # the result of arithmetic is a number, never None
         if isinstance(a, (Rat, IteV)) or isinstance(b, (Rat, IteV)):
             return 'unknown'
         return 'different'
